@@ -65,7 +65,14 @@ BadBuild == {
     "from_container filename=\"src1\" | filter_zoom min=abc",                   \* non-numeric u8
     "from_container filename=\"src1\" | filter_zoom min=300",                   \* out of range for u8
     "from_container filename=\"src1\" | filter_zoom min=-1",
-    "from_container filename=\"src1\" | filter_bbox bbox=[1,2,3]",              \* wrong arity
+    "from_container filename=\"src1\" | filter_bbox bbox=[1,2,3]",              \* wrong arity (too few, too many, none, scalar)
+    "from_container filename=\"src1\" | filter_bbox bbox=[1,2,3,4,5]",
+    "from_container filename=\"src1\" | filter_bbox bbox=[1,2,3,4,5,6,7,8]",
+    "from_container filename=\"src1\" | filter_bbox bbox=[]",
+    "from_container filename=\"src1\" | filter_bbox bbox=7",
+    "from_container filename=\"src1\" | filter_bbox bbox=[1,2] bbox=[3,4,5]",  \* repeated key: five values in all
+    "from_container filename=\"src1\" | filter_zoom min=[1,2]",                 \* list where a scalar is required
+    "from_container filename=\"src1\" | filter_zoom min=1 min=2",
     "from_container filename=\"src1\" | filter_bbox bbox=[1,2,x,4]",
     "from_container filename=\"src1\" | filter_bbox",                           \* required list missing
     "from_container filename=[\"src1\",\"src2\"]",                              \* list where a scalar is required
